@@ -126,6 +126,9 @@ def verify_general_json(
         obj: GeneralJSONSignature,
         registry: JWSRegistry,
         find_key: FindKey) -> bool:
+    if not obj.signatures:
+        # a JWS without any signature is never verified
+        return False
     payload_segment = obj.segments["payload"]
     for index, signature in enumerate(obj.signatures):
         member = obj.members[index]
